@@ -1,5 +1,6 @@
 (* Props/C14.v — property C14: built-in reports state exactly the facts of the event stream (structure). *)
 From CV Require Import Model.Base Model.Events Model.Contract Model.Stats Model.StatsSpec Model.Reporters Model.ReportersSpec Proofs.BaseP Proofs.ReportersP Proofs.ReportersP2 Proofs.ReportersP3.
+From CV Require Model.ReportersSpec2 Proofs.ReportersP6.
 From CV Require Proofs.ReportersP4 Proofs.ReportersP5 Proofs.Compose Proofs.SchedP4 Proofs.SchedP7 Model.Sched.
 From Coq Require Import Lia.
 
@@ -252,3 +253,48 @@ Theorem C14_runner_to_terminal_report :
     c14_basic_ok tr (basic_lines (ReportersP5.ns_of es)) = true.
 Proof. exact Compose.runner_to_terminal_report. Qed.
 Print Assumptions C14_runner_to_terminal_report.
+
+
+(* ---------- UNDER WHICH feature / rule / testcase (review finding H4) ----------
+   The terminal and JUnit facts of `ReportersSpec.v` carry neither feature nor rule, and the JUnit listings are not tied
+   to the testcase they are printed in: a listing with the scenarios under the wrong `Feature:` lines, or with the
+   listings of two testcases swapped, satisfies `c14_basic_ok` / `c14_junit_ok`. `Model/ReportersSpec2.v` states the
+   attributed facts: terminal — every result line stands under the header of its own scenario and attempt, under the
+   `Feature:` line of its own feature, and a scenario of rule r stands under `Rule: r` (last rule line since the feature
+   line); JUnit — every testcase stands in the suite of its feature, its listing has exactly one header, that of the
+   case's own scenario, with the attempt number whose status the case states, and the result lines are that attempt's.
+   Both are now ALSO demanded of the real reporters' output by Check/C14Check.v. *)
+Theorem C14_basic_attributed :
+  forall es, normalized_prefix es = true ->
+    ReportersSpec2.line_facts2 None None (basic_lines es) = ReportersSpec2.stream_line_facts2 es /\
+    ReportersSpec2.c14_basic_attr_ok es (basic_lines es) = true.
+Proof. intros es H. split; [exact (ReportersP6.C14_basic_lines_attributed es H)|exact (ReportersP6.C14_basic_attr_ok es H)]. Qed.
+Print Assumptions C14_basic_attributed.
+
+Theorem C14_junit_attributed :
+  forall es, normalized_prefix es = true ->
+    forallb (fun o => negb (snd o =? 2)) (attempt_outcomes es) = true ->
+    ReportersSpec2.c14_junit_attr_ok es (junit_doc es) = true.
+Proof. exact ReportersP6.C14_junit_attr_ok. Qed.
+Print Assumptions C14_junit_attributed.
+
+(* ... end to end: the facts read from the RAW stream, the report computed from what Normalize forwards *)
+Theorem C14_basic_attributed_end_to_end :
+  forall es : list mev, contract (ReportersP5.raw_of es) = true ->
+    ReportersSpec2.c14_basic_attr_ok (ReportersP5.raw_of es) (basic_lines (ReportersP5.ns_of es)) = true.
+Proof. exact ReportersP6.C14_basic_attr_end_to_end. Qed.
+Print Assumptions C14_basic_attributed_end_to_end.
+
+Theorem C14_junit_attributed_end_to_end :
+  forall es : list mev, contract (ReportersP5.raw_of es) = true ->
+    forallb (fun o => negb (snd o =? 2)) (attempt_outcomes (ReportersP5.ns_of es)) = true ->
+    ReportersSpec2.c14_junit_attr_ok (ReportersP5.raw_of es) (junit_doc (ReportersP5.ns_of es)) = true.
+Proof. exact ReportersP6.C14_junit_attr_end_to_end_ns. Qed.
+Print Assumptions C14_junit_attributed_end_to_end.
+
+(* the reviewer's witnesses: accepted by the old predicates, rejected by the attributed ones *)
+Example C14_attribution_is_discriminating :
+  (c14_basic_ok ReportersP6.ex_w ReportersP6.w_basic = true /\ c14_junit_ok ReportersP6.ex_w ReportersP6.w_junit = true) /\
+  ReportersSpec2.c14_basic_attr_ok ReportersP6.ex_w ReportersP6.w_basic = false /\
+  ReportersSpec2.c14_junit_attr_ok ReportersP6.ex_w ReportersP6.w_junit = false.
+Proof. vm_compute. repeat split; reflexivity. Qed.
